@@ -85,12 +85,22 @@ func (bo *V2BlockOutline) Complete(cs consensus.State, txns []types.Transaction,
 		if ptxn.Transaction == nil && ptxn.V2Transaction == nil {
 			ptxn.Transaction, ptxn.V2Transaction = v1hashes[ptxn.Hash], v2hashes[ptxn.Hash]
 		}
+		// NOTE: the outline comes from a peer; its fees may be arbitrary, so
+		// the payout is summed without panicking on overflow (such a block
+		// fails validation later)
+		addFees := func(fees types.Currency) {
+			sum, overflow := b.MinerPayouts[0].Value.AddWithOverflow(fees)
+			if overflow {
+				sum = types.MaxCurrency
+			}
+			b.MinerPayouts[0].Value = sum
+		}
 		if ptxn.Transaction != nil {
 			b.Transactions = append(b.Transactions, *ptxn.Transaction)
-			b.MinerPayouts[0].Value = b.MinerPayouts[0].Value.Add(ptxn.Transaction.TotalFees())
+			addFees(ptxn.Transaction.TotalFees())
 		} else if ptxn.V2Transaction != nil {
 			b.V2.Transactions = append(b.V2.Transactions, *ptxn.V2Transaction)
-			b.MinerPayouts[0].Value = b.MinerPayouts[0].Value.Add(ptxn.V2Transaction.MinerFee)
+			addFees(ptxn.V2Transaction.MinerFee)
 		}
 	}
 	return b, bo.Missing()
